@@ -49,7 +49,7 @@ prop('C17',
      assumes=['A-PROTO + cross-decoding facts (asOpType in specs/wharf.spec, from the field numbers of pwr.proto/bsdiff.proto): in-context contracts of ReadMessage in skipFile',
               'A-POOL', 'collaborators (bowl, entry writers, save consumer) do not modify the patcher\'s containers or messages (pure list in specs/deps.spec)',
               'Resume is verified for a fresh start (c == nil); resuming from a checkpoint trusts the checkpoint\'s own fields'],
-     not_decided='that each whitelisted file comes out identical to full application (follows from processRsync/processBsdiff consuming the same message range: their bodies are not under contract yet); reads of the recording pool')
+     not_decided='that each whitelisted file comes out identical to full application as one statement (it follows from processFile handing the same message range to processRsync/processBsdiff, whose stream consumption is under contract, see C10); reads of the recording pool')
 
 WSYNC_DIFF = [('/wsync', '(*Context).findUniqueHash'), ('/wsync', '(*Context).ComputeDiff$2'), ('/wsync', '(*Context).ComputeDiff'),
               ('/wsync', '(*Context).ApplySingleFull'), ('/wsync', 'makeOperationCleaner$1')]
@@ -64,10 +64,12 @@ prop('C08',
      assumes=['A-MD5', 'A-IO'],
      not_decided='the (2k+2)*64KiB bound for k localised edits (a resynchronisation argument over an unbounded alignment search, not a function contract); that the rolling checksum equals the from-scratch one on every full window (invariant I7 of DESIGN A.1 not carried: only the from-scratch hash is proved against the specification, and the lookup is proved to be skipped only when the rolling value is unchanged); NewBlockLibrary (bucket completeness) is not under contract')
 
+PATCHER_SERIES_EARLY = [('/pwr/patcher', '(*savingPatcher).processRsync'), ('/pwr/patcher', '(*savingPatcher).processBsdiff')]
+
 prop('C01',
-     functions=[('/pwr', 'makeOpsWriter$1'), ('/pwr', 'CompressWire'), ('/pwr', 'ComputeNumBlocks'), ('/pwr', 'ComputeBlockSize')] + PATCHER + WSYNC_DIFF + HASHING + WIRE_READ,
+     functions=[('/pwr', 'makeOpsWriter$1'), ('/pwr', 'CompressWire'), ('/pwr', 'ComputeNumBlocks'), ('/pwr', 'ComputeBlockSize')] + PATCHER + PATCHER_SERIES_EARLY + WSYNC_DIFF + HASHING + WIRE_READ,
      assumes=['everything C11 and C17 assume', 'A-PROTO', 'A-COMP', 'A-FS (the bowl and the file system)'],
-     not_decided='byte equality of the replay with the new file (see C11: ghost-source invariant not carried); directory/symlink creation and leftover deletion (tlc.Container.Prepare, outside /repo); the three-goroutine plumbing of WritePatch; processRsync/processBsdiff bodies (not under contract); compression round trip (external codecs)')
+     not_decided='byte equality of the replay with the new file (see C11: ghost-source invariant not carried); directory/symlink creation and leftover deletion (tlc.Container.Prepare, outside /repo); the three-goroutine plumbing of WritePatch beyond ownership (C15); compression round trip (external codecs)')
 
 PATCHER_SERIES = [('/pwr/patcher', '(*savingPatcher).processRsync'), ('/pwr/patcher', '(*savingPatcher).processBsdiff')]
 
@@ -149,14 +151,14 @@ prop('C19',
      not_decided='the round trip itself (archive codecs archive/zip, archive/tar, compress/* are outside /repo); the on-disk state after a kill at an arbitrary point (no crash model in this family: what is proved is that the resume file only ever names an index below which every entry completed); symlink targets, modes')
 
 REDIFF = [('/pwr/rediff', '(*context).analyzePatch'), ('/pwr/rediff', '(*context).Optimize')]
-DIFFPIPE = [('/pwr', '(*DiffContext).WritePatch'), ('/pwr', 'CompressWire'), ('/ctxcopy', 'DoBuffer')] + REDIFF
+DIFFPIPE = [('/pwr', '(*DiffContext).WritePatch'), ('/pwr', 'CompressWire'), ('/ctxcopy', 'DoBuffer'), ('/bsdiff', '(*DiffContext).Do')] + REDIFF
 
 prop('C15',
      functions=DIFFPIPE,
      assumes=['A-SCHED: taskgroup.Do runs its function-literal arguments concurrently and returns after all of them (fork clause); the ownership frames are syntactic: captured variables and the pointers held in them',
               'wsync.Context methods only touch their own receiver and what they are handed (their contracts: modifies of ComputeDiff / CreateSignature)',
               'io.Pipe / multiread deliver the same byte sequence to both readers (outside the verified text)'],
-     not_decided='byte-for-byte determinism of the patch as one statement (it follows from: each consumer is a deterministic function of the byte sequence it reads -- sequential code, proved separately under C11/C04 -- and no state is shared between the tasks, which is what is proved here); the race detector\'s view of library internals (io.Pipe, sync.Pool); GOMAXPROCS; the bsdiff scanner goroutines (see C12)')
+     not_decided='byte-for-byte determinism of the patch as one statement (it follows from: each consumer is a deterministic function of the byte sequence it reads -- sequential code, proved separately under C11/C04 -- and no state is shared between the tasks, which is what is proved here); the race detector\'s view of library internals (io.Pipe, sync.Pool); GOMAXPROCS; the order in which the bsdiff collector forwards matches (strictly by block index: the channel protocol is read, not proved)')
 
 PROPERTIES['C10']['functions'] += REDIFF
 PROPERTIES['C07']['functions'] += REDIFF
